@@ -39,25 +39,34 @@ struct Value {
     static std::vector<Value> parse_args(const std::vector<const char*> args) {
         std::vector<Value> result;
         std::string accum = "";
+        int depth = 0; // brackets still open in accum
         for (auto& v : args) {
             size_t vlen = strlen(v);
+            int d = 0;
+            for (size_t k = 0; k < vlen; ++k) d += (v[k] == '[') - (v[k] == ']');
             if (accum != "") {
+                // inside a bracket expression which the shell split over several arguments
                 accum += std::string(" ") + v;
-                if (vlen > 0 && v[vlen-1] == ']') {
-                    result.emplace_back(accum.c_str(), accum.length() - 1);
+                depth += d;
+                if (depth <= 0) {
+                    result.emplace_back(accum.c_str());
                     accum = "";
-                    continue;
+                    depth = 0;
                 }
+                continue;
             }
             if (vlen > 0) {
                 // brackets embed
-                if (v[0] == '[' && v[vlen-1] != ']') {
-                    accum = &v[1];
+                if (v[0] == '[' && d > 0) {
+                    accum = v;
+                    depth = d;
                     continue;
                 }
                 result.emplace_back(v, vlen);
             }
         }
+        // a bracket expression the arguments never close is passed on as it stands
+        if (accum != "") result.emplace_back(accum.c_str());
         return result;
     }
     static std::vector<Value> parse_args(const size_t argc, const char** argv, size_t argidx = 0) {
